@@ -210,6 +210,9 @@ func (p *Program) VerifyLemma(fc *FuncContract) (res *FuncResult) {
 	if i := strings.LastIndex(short, "/"); i >= 0 {
 		short = short[i+1:]
 	}
+	for k, u := range fc.Uses {
+		res.Obls = append(res.Obls, x.applyLemma(st, env, u, fmt.Sprintf("%s.lemma:%s:use%d", short, fc.Name, k+1))...)
+	}
 	res.Obls = append(res.Obls, &Obligation{Name: short + ".lemma:" + fc.Name + ":cover:pre", Kind: "cover", Func: short + ".lemma:" + fc.Name,
 		Assumes: st.AssumeList(), Goal: TFalse, Text: "lemma hypotheses are satisfiable", Cover: true})
 	for i, e := range fc.Ensures {
@@ -227,4 +230,53 @@ func (x *Exec) funcLabelOr(s string) string {
 		return s
 	}
 	return x.funcLabel()
+}
+
+// applyLemma instantiates a lemma: its hypotheses become obligations, its conclusions assumptions.
+func (x *Exec) applyLemma(st *State, env *Env, u *Expr, owner string) []*Obligation {
+	name := u.Args[0].String()
+	var lem *FuncContract
+	for _, l := range x.P.CS.Lemmas {
+		if l.Name == name {
+			lem = l
+		}
+	}
+	if lem == nil {
+		x.fail("use: unknown lemma %s", name)
+	}
+	if len(u.Args)-1 != len(lem.Params) {
+		x.fail("use %s: %d arguments for %d parameters", name, len(u.Args)-1, len(lem.Params))
+	}
+	vars := map[string]Value{}
+	for i, p := range lem.Params {
+		a := u.Args[i+1]
+		if env.FC != nil && len(env.FC.Lets) > 0 {
+			a = substExpr(a, env.FC.Lets)
+		}
+		v := x.materialize(env, x.eval(env, a))
+		if c, ok := v.(ConstV); ok {
+			if ty := x.lookupType(env, p.Type); ty != nil {
+				v = Scalar{st.A.Const(c.V, ty), ty}
+			}
+		}
+		if sc, ok := v.(Scalar); ok {
+			if ty := x.lookupType(env, p.Type); ty != nil && isIntType(ty) && isIntType(sc.Ty) {
+				v = Scalar{st.A.Convert(sc.T, sc.Ty, ty), ty}
+			}
+		}
+		vars[p.Name] = v
+	}
+	lenv := &Env{X: x, St: st, Old: st, Vars: vars, OldVars: vars, FC: lem, PkgPath: lem.Pkg}
+	var obls []*Obligation
+	x.usedLemmas = appendUniq(x.usedLemmas, name)
+	for i, r := range lem.Requires {
+		g := x.evalBool(lenv, r.Expr)
+		obls = append(obls, &Obligation{Name: owner + ":" + name + ":" + clauseLabel(r, i), Kind: "use-pre", Func: owner,
+			Assumes: st.AssumeList(), Goal: g, Text: "use " + name + " requires " + r.Text, Inputs: x.Inputs})
+		st.Assume(g)
+	}
+	for _, e := range lem.Ensures {
+		st.Assume(x.evalBool(lenv, e.Expr))
+	}
+	return obls
 }
